@@ -342,7 +342,7 @@ fn history_case(st: &mut Stats, rng: &mut Rng) {
                 if !band_eq(tb, td, m1, m2) { st.violation("C04:history:clone-not-independent", format!("twin entries changed after {:?}", log)); return; }
             }
         }
-        let op = rng.below(12);
+        let op = rng.below(13);
         let c = Rat::int(rng.nzint(5));
         let name: String;
         let upd = |d: &mut DM<Rat>, f: &dyn Fn(Rat) -> Rat| { for i in 0..n { for j in 0..n { if inband(i, j, m1, m2) { d.a[i][j] = f(d.a[i][j]); } } } };
@@ -370,6 +370,7 @@ fn history_case(st: &mut Stats, rng: &mut Rng) {
             7 => { name = format!("-= {:?}", c); upd(&mut d, &|x| x - c); if !catch(|| b -= c).is_ok() { return; } }
             8 => { name = format!("*= {:?}", c); upd(&mut d, &|x| x * c); if !catch(|| b *= c).is_ok() { return; } }
             9 => { name = format!("/= {:?}", c); upd(&mut d, &|x| x / c); if !catch(|| b /= c).is_ok() { return; } }
+            12 => { name = format!("fill({:?})", c); upd(&mut d, &|_| c); if !catch(|| b.fill(c)).is_ok() { st.violation("C04:history:fill:panic", format!("after {:?}", log)); return; } }
             10 => { let o = gen_band(rng, n, m1, m2, 1); let ob = build(&o, m1, m2, Rat::int(3)); let plus = rng.bool(); name = format!("{} {}", if plus { "+= &B" } else { "-= &B" }, o.show());
                 for i in 0..n { for j in 0..n { if inband(i, j, m1, m2) { d.a[i][j] = if plus { d.a[i][j] + o.a[i][j] } else { d.a[i][j] - o.a[i][j] }; } } }
                 if !catch(|| if plus { b += &ob } else { b -= &ob }).is_ok() { return; } }
